@@ -12,6 +12,8 @@ fn main() {
     drive(move |_i, r| {
         let (class, sim) = match gen.as_str() {
             "mix" => gens::gen_mix(r),
+            "c10" => gens::gen_c10(r, false),
+            "c10long" => gens::gen_c10(r, true),
             other => panic!("unknown generator {other}"),
         };
         (class, sim.case_term())
